@@ -4,6 +4,7 @@ import (
 	"fmt"
 	"go/token"
 	"go/types"
+	"sort"
 	"strings"
 
 	"golang.org/x/tools/go/ssa"
@@ -437,7 +438,15 @@ func c05R4(e *Engine) {
 	mk := e.fn("v2", "mapKnownError")
 	if e.anchor("R4", "v2.mapKnownError", mk == nil) {
 		mapped, item := false, false
-		instrs(mk, func(in ssa.Instruction) {
+		// the mapper and the package-local helpers it is factored into
+		var fam []*ssa.Function
+		for g := range e.reach(mk) {
+			if e.fnRole(g) == "v2" {
+				fam = append(fam, g)
+			}
+		}
+		sort.Slice(fam, func(i, j int) bool { return fam[i].Pos() < fam[j].Pos() })
+		scan := func(in ssa.Instruction) {
 			if b, ok := in.(*ssa.BinOp); ok && b.Op == token.EQL {
 				if s, ok := constString(b.Y); ok && s == code {
 					mapped = true
@@ -455,11 +464,31 @@ func c05R4(e *Engine) {
 					}
 				}
 			}
-		})
+		}
+		for _, g := range fam {
+			instrs(g, scan)
+		}
 		typed := false
-		for _, r := range returnsOf(mk) {
-			if mi, ok := retVals(r)[0].(*ssa.MakeInterface); ok && strings.HasSuffix(typeName(mi.X.Type()), "types.ConditionalCheckFailedException") && strings.Contains(mi.X.Type().String(), "aws-sdk-go-v2") {
-				typed = true
+		for _, g := range fam {
+			for _, r := range returnsOf(g) {
+				rv := retVals(r)
+				if len(rv) != 1 {
+					continue
+				}
+				mi, ok := rv[0].(*ssa.MakeInterface)
+				if !ok || !strings.HasSuffix(typeName(mi.X.Type()), "types.ConditionalCheckFailedException") || !strings.Contains(mi.X.Type().String(), "aws-sdk-go-v2") {
+					continue
+				}
+				if g == mk {
+					typed = true
+					continue
+				}
+				// built by a helper: the mapper returns that helper's result
+				for _, mr := range returnsOf(mk) {
+					if c, isC := strip(retVals(mr)[0]).(*ssa.Call); isC && c.Call.StaticCallee() == g {
+						typed = true
+					}
+				}
 			}
 		}
 		e.check(mapped && typed, "R4", "v2.mapKnownError:maps-code", e.pos(mk.Pos()), "code %s is mapped to the SDK's *types.ConditionalCheckFailedException (case present: %v, typed result: %v)", code, mapped, typed)
